@@ -1,7 +1,7 @@
 (* C02 - Injector result equals sequential evaluation of the declared graph. *)
 From Coq Require Import List Arith Bool Permutation.
 Import ListNotations.
-Require Import Sem2 Safe Live Denote GenU GenSound Resolve Spec Reorder.
+Require Import Sem2 Safe Live Denote GenU GenSound Resolve Spec Reorder ParseDecl.
 
 (* In every run of a well-synchronised program a provider returns at most once, with one argument vector. *)
 Theorem C02_once : forall p ls s n vs ws, wf p -> Sem2.run p (Sem2.init p) ls = Some s ->
@@ -138,3 +138,36 @@ Theorem C02_reordering_keeps_acceptance : forall d d',
   (exists r, dpm d = Some r) -> exists r', dpm d' = Some r'.
 Proof. exact acceptance_order_independent_no_structs. Qed.
 Print Assumptions C02_reordering_keeps_acceptance.
+
+(* The declaration as WRITTEN (ParseDecl.v: provider expressions wrapped in Async / Bind, grouped in nested Sets) reaches
+   the model - and with it every theorem above - through ParseDecl.parse; the static correspondence hands the written form
+   of every declaration to it. What the wrappers and the grouping can and cannot change: *)
+
+(* a Set - inline or a variable, at any depth - stands for its contents in its place: grouping never changes the provider
+   list, hence neither acceptance nor the value *)
+Theorem C02_sets_only_group : forall implements errty fields_of a es b,
+  parse implements errty fields_of (a ++ [XSet es] ++ b) = parse implements errty fields_of (a ++ es ++ b).
+Proof. exact set_is_grouping. Qed.
+Print Assumptions C02_sets_only_group.
+
+(* Async and Bind may be nested either way round: the decoded provider is the same *)
+Theorem C02_async_bind_either_way : forall implements errty fields_of i e,
+  decode implements errty fields_of (XAsync (XBind i e)) = decode implements errty fields_of (XBind i (XAsync e)).
+Proof. exact async_bind_commute. Qed.
+Print Assumptions C02_async_bind_either_way.
+
+(* a Bind changes nothing but the result groups: every group keeps its types in order and gains the interface exactly
+   when one of its types implements it; requirements, fallibility and the Async mark are those of the wrapped provider *)
+Theorem C02_bind_only_adds_the_interface : forall implements errty fields_of i e p q,
+  decode implements errty fields_of e = Gen.OK p -> decode implements errty fields_of (XBind i e) = Gen.OK q ->
+  Gen.requires q = Gen.requires p /\ Gen.fallible q = Gen.fallible p /\ Gen.async q = Gen.async p /\ Gen.isstruct q = Gen.isstruct p /\ Gen.sfields q = Gen.sfields p /\
+  length (Gen.provides q) = length (Gen.provides p) /\
+  forall k g, nth_error (Gen.provides p) k = Some g -> nth_error (Gen.provides q) k = Some (if binds implements i g then g ++ [i] else g).
+Proof. exact bind_effect. Qed.
+Print Assumptions C02_bind_only_adds_the_interface.
+
+(* the flat list has one provider per provider expression, in the order written *)
+Theorem C02_one_provider_per_expression : forall implements errty fields_of es l, parse implements errty fields_of es = Gen.OK l ->
+  Forall2 (fun x p => decode implements errty fields_of x = Gen.OK p) (leaves_l es) l.
+Proof. exact parse_leaves. Qed.
+Print Assumptions C02_one_provider_per_expression.
